@@ -336,6 +336,15 @@ def compare(ctx, case, variant, base, other, extra=None, mech_suffix=''):
   if extra:
     w.update(extra)
   prefix = 'bench-' if case['type'] == 'bench' else ''
+  ph = case.get('phases') or {}
+  if ph.get('refill_at') and not mech_suffix:
+    # where does the stream part: before or from the first suggestion that
+    # re-populated the pool (1-based count of suggestions)
+    at = X.flat_first_diff(base, other)
+    w['phases'] = ph
+    w['first_difference_at_suggestion'] = at
+    if at is not None:
+      mech_suffix = ':from-pool-refill' if at >= ph['refill_at'] else ':before-pool-refill'
   if variant == 'after-servicer' and kind in X.JAX_KINDS:
     mech = f'seeded-stream-changes-after-PythiaServicer-flips-jax_enable_x64:{kind}'
   else:
@@ -383,6 +392,7 @@ def check_case(ctx, case, index, state):
   refilled = obs.get('kind') == 'eagle' and obs.get('refill_at') is not None
   if refilled:
     ctx.count('eagle_refill_histories')
+    case['phases'] = obs
   rng = ctx.rng(index, 'variants')
   other = safe_execute(ctx, case)
   compare(ctx, case, 'repeat', base, other)
@@ -392,8 +402,7 @@ def check_case(ctx, case, index, state):
   if refilled and case.get('wrap') == 'stateless_policy':
     # a restored designer re-populating its pool at another wall-clock time
     ctx.count('eagle_refill_restored_pairs')
-  compare(ctx, case, 'perturbed', base, other,
-          {'perturb': k, 'clock_shift': shift, 'phases': obs or None})
+  compare(ctx, case, 'perturbed', base, other, {'perturb': k, 'clock_shift': shift})
   prev = state.get('prev')
   if prev is not None:
     pcase, pbase = prev
